@@ -48,7 +48,7 @@ Decode ==
   /\ Ev.action = "decode"
   /\ viol' = viol
        \cup (IF Ev.result \notin {"ok", "error"} THEN {V("C16", "never_panics", [cls |-> Ev.cls, target |-> Ev.tinfo.k, result |-> Ev.result])} ELSE {})
-       \cup (IF Ev.result = "ok" /\ MustError(Ev.bytes, Ev.tinfo) THEN {V("C16", "malformed_is_error", [cls |-> Ev.cls, target |-> Ev.tinfo.k, empty |-> Len(Ev.bytes) = 0])} ELSE {})
+       \cup (IF Ev.result = "ok" /\ Ev.cls # "deep" /\ MustError(Ev.bytes, Ev.tinfo) THEN {V("C16", "malformed_is_error", [cls |-> Ev.cls, target |-> Ev.tinfo.k, empty |-> Len(Ev.bytes) = 0])} ELSE {})
   /\ div' = div
 Types == Ev.action = "types" /\ UNCHANGED <<viol, div>>
 Finish == /\ l = Len(Trace) + 1
